@@ -352,7 +352,8 @@ Push(s, c) == [s EXCEPT !.nl = @ + 1, !.first = IF s.nl = 0 THEN c ELSE @]
 RECURSIVE NalScan(_, _, _, _)
 NalScan(fmt, b, p, s) ==       \* the for-loop of NextNAL from position p; returns [k, pos, hs]
   IF p = Len(b)
-  THEN IF s.nl = 0 THEN [k |-> "eof", pos |-> p, hs |-> s]
+  THEN IF s.nl = 0 \/ IsSei(fmt, s.first)                 \* a trailing SEI unit is filtered like any other (pion 7b855c6)
+       THEN [k |-> "eof", pos |-> p, hs |-> [s EXCEPT !.nl = 0]]
        ELSE [k |-> "value", pos |-> p, hs |-> [s EXCEPT !.nl = 0]]
   ELSE LET c == b[p + 1] IN
        IF c = 0 THEN NalScan(fmt, b, p + 1, Push([s EXCEPT !.z = @ + 1], 0))
